@@ -226,8 +226,35 @@ strcpy(char *dst, const char *src)
 }
 #endif
 
+#ifdef LH_POOL
+/* vgp.c's allocator in the new-group history: typed static objects, selected by the (constant) request size; anything
+   else, and every repeated request, is an allocation failure (which the code must survive anyway) */
+static VGROUP       lp_vg;
+static vginstance_t lp_v;
+static uint16       lp_tag[MAXNVELT], lp_ref[MAXNVELT];
+static int          lp_vg_used, lp_v_used, lp_arr_used;
+static void *
+lh_pool_malloc(size_t n)
+{
+    if (n == sizeof(VGROUP) && !lp_vg_used) {
+        lp_vg_used = 1;
+        return &lp_vg;
+    }
+    if (n == sizeof(vginstance_t) && !lp_v_used) {
+        lp_v_used = 1;
+        return &lp_v;
+    }
+    if (n == MAXNVELT * sizeof(uint16) && lp_arr_used < 2)
+        return lp_arr_used++ == 0 ? (void *)lp_tag : (void *)lp_ref;
+    return NULL;
+}
+#define malloc(n) lh_pool_malloc(n)
+#endif
 /* ------------------------------------------------------------------ the real file */
 #include "vgp.c"
+#ifdef LH_POOL
+#undef malloc
+#endif
 
 /* ------------------------------------------------------------------ predicates */
 #define LV_VG_WF(vg)                                                                                              \
@@ -399,6 +426,9 @@ lv_reset_ghosts(void)
     H4V_ASSUME(g_reuse_fault == 0 || g_reuse_fault == 1);
     H4V_ASSUME(g_put_may_fail == 0 || g_put_may_fail == 1);
     g_nlen = g_clen = 0;
+#ifdef LH_POOL
+    lp_vg_used = lp_v_used = lp_arr_used = 0;
+#endif
 }
 
 /* the file, its V-layer record and one vgroup of it (heap objects, group of any size) */
@@ -762,12 +792,33 @@ lh_expect(VGROUP *vg)
     (g_put_f == L_FID && g_put_tag == DFTAG_VG && g_put_ref == (vg)->oref && g_put_len == lh_explen &&            \
      (g_c >= (size_t)lh_explen || g_put_byte == lh_exp[g_c]))
 
-/* attach, edit, attach again ("r" or "w"), detach, detach (either order), then the stale id */
+/* After a successful Vattach the harness re-states, as constants, ghost facts it has just CHECKED to hold (a checked no-op):
+   cbmc's symbolic execution otherwise carries them as "value on the success path / value on the refused path" and can no
+   longer resolve the handle in the following Vdetach to one object (see the note at lh_env). */
+#define LH_ATTACHED(id, IDK, livek, objk, inst, what)                                                             \
+    if (!((id) == IDK && livek == 1 && objk == (void *)(inst))) {                                                 \
+        H4V_CHECK(0, what);                                                                                       \
+        return;                                                                                                   \
+    }                                                                                                             \
+    livek = 1;                                                                                                    \
+    objk  = (void *)(inst)
+/* the two detaches in either order (handles are the constants L_ID0, L_ID1) */
+#define LH_DETACH_BOTH(order, d1, d2)                                                                             \
+    if (order) {                                                                                                  \
+        d1 = Vdetach(L_ID0);                                                                                      \
+        d2 = Vdetach(L_ID1);                                                                                      \
+    }                                                                                                             \
+    else {                                                                                                        \
+        d1 = Vdetach(L_ID1);                                                                                      \
+        d2 = Vdetach(L_ID0);                                                                                      \
+    }
+
+/* attach, edit, attach again ("r" or "w"), detach, detach (either order), then the stale ids */
 void
 h_hist_edit_reattach(void)
 {
     lh_env();
-    H4V_ASSUME(g_frec->access & DFACC_WRITE);
+    lh_frec.access = DFACC_RDWR;
 #ifndef LIFE_C16
     g_put_may_fail = 0; /* fault-free run: the C16 twin lets the write fail */
 #endif
@@ -778,76 +829,91 @@ h_hist_edit_reattach(void)
     a2[0] = acc2;
     a2[1] = '\0';
     int32 id1 = Vattach(L_FID, g_v->key, w);
-    H4V_CHECK(id1 == L_ID0 && g_v->nattach == 1 && g_vg->marked == 0, "first attach");
+    LH_ATTACHED(id1, L_ID0, g_live0, g_obj0, g_v, "first attach succeeds");
+    H4V_CHECK(g_v->nattach == 1 && g_vg->marked == 0, "first attach: one handle, nothing pending");
     lh_edit();
     int32 id2 = Vattach(L_FID, g_v->key, a2);
-    H4V_CHECK(id2 == L_ID1 && id2 != id1, "second attach hands out a fresh id");
+    LH_ATTACHED(id2, L_ID1, g_live1, g_obj1, g_v, "second attach hands out a fresh id for the same instance");
     H4V_CHECK(g_v->nattach == 2, "nattach counts both handles");
     H4V_CHECK(g_vg->marked == 1, "the pending edit survives the second attach");
     H4V_CHECK(g_put_n == 0, "nothing written before a detach");
     lh_expect(g_vg);
     H4V_ND(int, order);
-    int32 first = order ? id1 : id2, second = order ? id2 : id1;
-    int32 d1 = Vdetach(first);
-    H4V_CHECK(g_v->nattach == 1 || d1 == FAIL, "first detach releases one handle");
-    H4V_CHECK(HAatom_object(first) == NULL && HAatom_object(second) == (void *)g_v, "first detach removes its own id only");
-    int32 d2 = Vdetach(second);
+    int32 d1, d2;
+    if (order) {
+        d1 = Vdetach(L_ID0);
+        H4V_CHECK(HAatom_object(L_ID0) == NULL && HAatom_object(L_ID1) == (void *)g_v, "a detach removes its own id only");
+        d2 = Vdetach(L_ID1);
+    }
+    else {
+        d1 = Vdetach(L_ID1);
+        H4V_CHECK(HAatom_object(L_ID1) == NULL && HAatom_object(L_ID0) == (void *)g_v, "a detach removes its own id only");
+        d2 = Vdetach(L_ID0);
+    }
 #ifdef LIFE_C16
     H4V_CHECK(!g_io_failed || d1 == FAIL || d2 == FAIL, "C16: a failed write-back is reported by a Vdetach");
     H4V_COVER(g_io_failed, "history: write-back fails");
 #else
-    H4V_CHECK(d1 == SUCCEED && d2 == SUCCEED, "both detaches succeed");
-    H4V_CHECK(g_v->nattach == 0, "nobody attached after the last detach");
-    H4V_CHECK(g_put_n == 1, "the edit is written back exactly once");
-    H4V_CHECK(LH_WRITTEN_IS_EXPECTED(g_vg), "the record written is vpackvg of the edited group");
-    H4V_CHECK(g_vg->marked == 0, "no edit pending after the last detach");
+    if (g_chk_ret == 0 || (g_chk_ret == 1 && !g_reuse_fault)) { /* the descriptor layer does not refuse */
+        H4V_CHECK(d1 == SUCCEED && d2 == SUCCEED, "both detaches succeed");
+        H4V_CHECK(g_v->nattach == 0, "nobody attached after the last detach");
+        H4V_CHECK(g_put_n == 1, "the edit is written back exactly once");
+        H4V_CHECK(LH_WRITTEN_IS_EXPECTED(g_vg), "the record written is vpackvg of the edited group");
+        H4V_CHECK(g_vg->marked == 0, "no edit pending after the last detach");
+        H4V_CHECK(g_reuse_n == (g_chk_ret == 1 ? 1 : 0), "the old descriptor is released exactly once when it exists");
+    }
     H4V_CHECK(g_rem_n == 2 && !g_live0 && !g_live1, "each id removed exactly once");
-    int   n0 = g_put_n;
-    int32 d3 = Vdetach(id1);
-    int32 d4 = Vdetach(id2);
-    H4V_CHECK(d3 == FAIL && d4 == FAIL && g_put_n == n0 && g_v->nattach == 0 && g_rem_n == 2, "stale ids are refused and change nothing");
-    H4V_COVER(order == 0 && acc2 == 'r', "history: r handle detached first");
-    H4V_COVER(g_reuse_n == 1, "history: descriptor reused");
+    int   n0 = g_put_n, na = g_v->nattach;
+    int32 d3 = Vdetach(L_ID0);
+    int32 d4 = Vdetach(L_ID1);
+    H4V_CHECK(d3 == FAIL && d4 == FAIL && g_put_n == n0 && g_v->nattach == na && g_rem_n == 2, "stale ids are refused and change nothing");
+    H4V_COVER(order == 0 && acc2 == 'r' && d1 == SUCCEED && d2 == SUCCEED, "history: r handle detached first");
+    H4V_COVER(g_reuse_n == 1 && g_put_n == 1, "history: descriptor reused");
 #endif
     H4V_CANARY("hist_edit_reattach end");
 }
 
-/* new group: Vattach(-1,"w"), attach it again by ref, detach, detach */
+/* new group: Vattach(-1,"w"), attach it again by ref, detach, detach.  Allocation: vgp.c's malloc is served from typed
+   static objects in this history (-DLH_POOL, see lh_pool_malloc), for the reason given at lh_env. */
 void
 h_hist_new_group(void)
 {
     lh_env();
-    H4V_ASSUME(g_frec->access & DFACC_WRITE);
+    lh_frec.access = DFACC_RDWR;
     H4V_ASSUME(g_newref != 0 && (int32)g_newref != g_v->key);
 #ifndef LIFE_C16
     g_put_may_fail = 0;
 #endif
-    char  w[2]   = {'w', '\0'};
-    char  r_[2]  = {'r', '\0'};
+    char  w[2]  = {'w', '\0'};
+    char  r_[2] = {'r', '\0'};
     int32 tabn0 = g_vf->vgtabn;
     int32 id1   = Vattach(L_FID, -1, w);
-    H4V_COVER(id1 != FAIL, "history: new group created");
-    if (id1 != FAIL) { /* FAIL: allocation failure only (out of scope) */
-        H4V_CHECK(id1 == L_ID0 && g_vn != NULL && g_vn->vg != NULL && g_ins_n == 1 && g_vf->vgtabn == tabn0 + 1, "new group entered once");
-        VGROUP *nvg = g_vn->vg;
-        H4V_CHECK(nvg->marked == 1 && nvg->new_vg == 1 && nvg->nvelt == 0 && nvg->oref == g_newref, "new group is pending");
-        int32 id2 = Vattach(L_FID, (int32)g_newref, r_);
-        H4V_CHECK(id2 == L_ID1 && g_vn->nattach == 2 && nvg->marked == 1 && nvg->new_vg == 1 && nvg->access == 'w',
-                  "second attach keeps the new group pending and writable");
-        lh_expect(nvg);
-        H4V_ND(int, order);
-        int32 d1 = Vdetach(order ? id1 : id2);
-        int32 d2 = Vdetach(order ? id2 : id1);
-#ifdef LIFE_C16
-        H4V_CHECK(!g_io_failed || d1 == FAIL || d2 == FAIL, "C16: a failed write-back is reported by a Vdetach");
-#else
-        H4V_CHECK(d1 == SUCCEED && d2 == SUCCEED && g_vn->nattach == 0, "both detaches succeed");
-        H4V_CHECK(g_put_n == 1 && LH_WRITTEN_IS_EXPECTED(nvg), "the new group is written exactly once");
-        H4V_CHECK(g_chk_n == 0 && g_reuse_n == 0, "a new group reuses no descriptor");
-        H4V_CHECK(nvg->marked == 0 && nvg->new_vg == 0, "nothing pending after the last detach");
-        H4V_CHECK(g_v->nattach == 0 && g_vg->marked == 0, "the other group is untouched");
-#endif
+    if (g_vn == NULL) {
+        H4V_CHECK(0, "a new group is entered into the table");
+        return;
     }
+    LH_ATTACHED(id1, L_ID0, g_live0, g_obj0, g_vn, "the new group gets the first id");
+    H4V_CHECK(g_vn->vg != NULL && g_ins_n == 1 && g_vf->vgtabn == tabn0 + 1, "new group entered once");
+    VGROUP *nvg = g_vn->vg;
+    H4V_CHECK(nvg->marked == 1 && nvg->new_vg == 1 && nvg->nvelt == 0 && nvg->oref == g_newref, "new group is pending");
+    int32 id2 = Vattach(L_FID, (int32)g_newref, r_);
+    LH_ATTACHED(id2, L_ID1, g_live1, g_obj1, g_vn, "second attach hands out a fresh id for the same instance");
+    H4V_CHECK(g_vn->nattach == 2 && nvg->marked == 1 && nvg->new_vg == 1 && nvg->access == 'w',
+              "second attach keeps the new group pending and writable");
+    lh_expect(nvg);
+    H4V_ND(int, order);
+    int32 d1, d2;
+    LH_DETACH_BOTH(order, d1, d2);
+#ifdef LIFE_C16
+    H4V_CHECK(!g_io_failed || d1 == FAIL || d2 == FAIL, "C16: a failed write-back is reported by a Vdetach");
+    H4V_COVER(g_io_failed, "history: write-back fails");
+#else
+    H4V_CHECK(d1 == SUCCEED && d2 == SUCCEED && g_vn->nattach == 0, "both detaches succeed");
+    H4V_CHECK(g_put_n == 1 && LH_WRITTEN_IS_EXPECTED(nvg), "the new group is written exactly once");
+    H4V_CHECK(g_chk_n == 0 && g_reuse_n == 0, "a new group reuses no descriptor");
+    H4V_CHECK(nvg->marked == 0 && nvg->new_vg == 0, "nothing pending after the last detach");
+    H4V_CHECK(g_v->nattach == 0 && g_vg->marked == 0, "the other group is untouched");
+#endif
     H4V_CANARY("hist_new_group end");
 }
 
@@ -863,11 +929,13 @@ h_hist_no_edit(void)
     a2[0] = acc2;
     a2[1] = '\0';
     int32 id1 = Vattach(L_FID, g_v->key, r_);
+    LH_ATTACHED(id1, L_ID0, g_live0, g_obj0, g_v, "first attach succeeds");
     int32 id2 = Vattach(L_FID, g_v->key, a2);
-    H4V_CHECK(id1 == L_ID0 && id2 == L_ID1 && g_v->nattach == 2 && g_vg->marked == 0, "two attaches, nothing pending");
+    LH_ATTACHED(id2, L_ID1, g_live1, g_obj1, g_v, "second attach hands out a fresh id for the same instance");
+    H4V_CHECK(g_v->nattach == 2 && g_vg->marked == 0, "two attaches, nothing pending");
     H4V_ND(int, order);
-    int32 d1 = Vdetach(order ? id1 : id2);
-    int32 d2 = Vdetach(order ? id2 : id1);
+    int32 d1, d2;
+    LH_DETACH_BOTH(order, d1, d2);
     H4V_CHECK(d1 == SUCCEED && d2 == SUCCEED && g_v->nattach == 0, "both detaches succeed");
     H4V_CHECK(g_put_n == 0 && g_reuse_n == 0 && g_chk_n == 0, "an unchanged group writes nothing and touches no descriptor");
     H4V_COVER(!(g_frec->access & DFACC_WRITE), "history: read-only file");
@@ -880,21 +948,31 @@ void
 h_hist_edit_twice(void)
 {
     lh_env();
-    H4V_ASSUME(g_frec->access & DFACC_WRITE);
+    lh_frec.access = DFACC_RDWR;
     g_put_may_fail = 0;
+    g_chk_ret      = 0; /* descriptor layer: not found (reuse is covered by hist_edit_reattach) */
     char  w[2]  = {'w', '\0'};
     char  r_[2] = {'r', '\0'};
     int32 id1   = Vattach(L_FID, g_v->key, w);
-    int32 id2   = Vattach(L_FID, g_v->key, r_);
-    H4V_CHECK(id1 == L_ID0 && id2 == L_ID1 && g_v->nattach == 2, "two attaches");
+    LH_ATTACHED(id1, L_ID0, g_live0, g_obj0, g_v, "first attach succeeds");
+    int32 id2 = Vattach(L_FID, g_v->key, r_);
+    LH_ATTACHED(id2, L_ID1, g_live1, g_obj1, g_v, "second attach hands out a fresh id for the same instance");
+    H4V_CHECK(g_v->nattach == 2, "two attaches");
     lh_edit();
     H4V_ND(int, order);
-    int32 d1 = Vdetach(order ? id1 : id2);
+    int32 d1, d2;
+    if (order)
+        d1 = Vdetach(L_ID0);
+    else
+        d1 = Vdetach(L_ID1);
     H4V_CHECK(d1 == SUCCEED && g_v->nattach == 1, "first detach");
     int n1 = g_put_n;
     lh_edit();
     lh_expect(g_vg);
-    int32 d2 = Vdetach(order ? id2 : id1);
+    if (order)
+        d2 = Vdetach(L_ID1);
+    else
+        d2 = Vdetach(L_ID0);
     H4V_CHECK(d2 == SUCCEED && g_v->nattach == 0, "last detach");
     H4V_CHECK(g_put_n == n1 + 1 && n1 <= 1, "the second edit is written exactly once, by the last detach");
     H4V_CHECK(LH_WRITTEN_IS_EXPECTED(g_vg) && g_vg->marked == 0, "the file holds the last state");
